@@ -137,3 +137,41 @@ class CFG:
             if b in self.reach([s]):
                 return True
         return False
+
+
+def sccs(cfg):
+    """strongly connected components (as sets) of the live CFG that contain a cycle"""
+    index = {}
+    low = {}
+    stack = []
+    on = set()
+    out = []
+    counter = [0]
+    import sys
+    sys.setrecursionlimit(10000)
+
+    def strong(v):
+        index[v] = low[v] = counter[0]
+        counter[0] += 1
+        stack.append(v)
+        on.add(v)
+        for w in cfg.succ[v]:
+            if w not in index:
+                strong(w)
+                low[v] = min(low[v], low[w])
+            elif w in on:
+                low[v] = min(low[v], index[w])
+        if low[v] == index[v]:
+            comp = set()
+            while True:
+                w = stack.pop()
+                on.discard(w)
+                comp.add(w)
+                if w == v:
+                    break
+            if len(comp) > 1 or v in cfg.succ[v]:
+                out.append(comp)
+    for v in sorted(cfg.live):
+        if v not in index:
+            strong(v)
+    return out
